@@ -464,6 +464,26 @@ pub enum Value<'a> {
   BYTE(ByteValue<'a>),
 }
 
+/// Writes `text` as a quoted CDDL text literal, escaping the characters that
+/// RFC 8610 `SCHAR` does not admit unescaped (`"`, `\` and control characters)
+pub(crate) fn write_text_literal(f: &mut fmt::Formatter, text: &str) -> fmt::Result {
+  use fmt::Write;
+
+  f.write_char('"')?;
+  for c in text.chars() {
+    match c {
+      '"' => f.write_str("\\\"")?,
+      '\\' => f.write_str("\\\\")?,
+      '\n' => f.write_str("\\n")?,
+      '\r' => f.write_str("\\r")?,
+      '\t' => f.write_str("\\t")?,
+      c if (c as u32) < 0x20 || c as u32 == 0x7f => write!(f, "\\u{:04x}", c as u32)?,
+      c => f.write_char(c)?,
+    }
+  }
+  f.write_char('"')
+}
+
 /// Numeric value
 #[derive(Debug, PartialEq)]
 pub enum Numeric {
@@ -478,7 +498,7 @@ pub enum Numeric {
 impl fmt::Display for Value<'_> {
   fn fmt(&self, f: &mut fmt::Formatter) -> fmt::Result {
     match self {
-      Value::TEXT(text) => write!(f, "\"{}\"", text),
+      Value::TEXT(text) => write_text_literal(f, text),
       Value::INT(i) => write!(f, "{}", i),
       Value::UINT(ui) => write!(f, "{}", ui),
       // `{:?}` keeps a fraction or exponent (1.0, 1e16), so the text stays a float literal
